@@ -3,12 +3,22 @@
 // Package c18 replays every case of spec/common/MCTemporal.tla (all shard lists over a bounded set of instants,
 // with the verdict of each component operator) into the three real components that decide "is NotAfter inside
 // [start, limit)": the log server (ctfe.ValidateChain and a configured ctfe.Instance), the temporal-shard client
-// (client.NewTemporalLogClient / IndexByDate) and the log-list filter (loglist3 TemporallyCompatible / Compatible).
+// (client.NewTemporalLogClient / IndexByDate) and the log-list filter (loglist3 TemporallyCompatible / Compatible); and
+// into the integration tests' NotAfter chooser (integration.NotAfterForLog).  Every case is materialized in every FRAME of
+// the specification: the ticks are placed at an ordinary instant and at the landmarks of the machinery that compares
+// them - the first and the last instant a certificate can carry, the first instant a configuration can name (= the
+// zero time.Time), the UTCTime / GeneralizedTime switches, Unix time 0, the 32-bit and the 64-bit-nanosecond ends.
 package c18
 
 import (
+	"crypto/ecdsa"
+	"crypto/elliptic"
+	"crypto/rand"
+	stdx509 "crypto/x509"
+	"crypto/x509/pkix"
 	"encoding/json"
 	"fmt"
+	"math/big"
 	"os"
 	"runtime"
 	"strings"
@@ -20,6 +30,8 @@ import (
 	"github.com/google/certificate-transparency-go/client/configpb"
 	"github.com/google/certificate-transparency-go/loglist3"
 	"github.com/google/certificate-transparency-go/trillian/ctfe"
+	ctfeconfigpb "github.com/google/certificate-transparency-go/trillian/ctfe/configpb"
+	"github.com/google/certificate-transparency-go/trillian/integration"
 	ctx509 "github.com/google/certificate-transparency-go/x509"
 	"github.com/google/certificate-transparency-go/x509util"
 	"google.golang.org/protobuf/types/known/timestamppb"
@@ -31,30 +43,117 @@ import (
 
 // Case is one record exported by MCTemporal.tla.
 type Case struct {
-	S   [][]int  `json:"S"`   // shards: [lower, upper], -1 = absent
-	Ok  bool     `json:"ok"`  // ConstructorAccepts
-	Idx []int    `json:"idx"` // ShardIndex(t), 0 = none, per instant
-	Srv [][]bool `json:"srv"` // ServerAdmits(t, shard i)
-	Lst [][]bool `json:"lst"` // ListCompatible(t, shard i), empty when the shard is not expressible as a log-list entry
+	S    [][]int  `json:"S"`    // shards: [lower, upper], -1 = absent
+	Ok   bool     `json:"ok"`   // ConstructorAccepts
+	Idx  []int    `json:"idx"`  // ShardIndex(t), 0 = none, per instant
+	Srv  [][]bool `json:"srv"`  // ServerAdmits(t, shard i)
+	Lst  [][]bool `json:"lst"`  // ListCompatible(t, shard i), empty when the shard is not expressible as a log-list entry
+	Cfg  []bool   `json:"cfg"`  // ConfigAccepts(shard i): the server's configuration accepts the window
+	Ins  [][]bool `json:"ins"`  // ConfiguredAdmits(t, shard i), empty when the configuration is refused
+	Pick []bool   `json:"pick"` // ChooserMustBeInside(shard i)
 }
 
-// A materialization maps model instants to real ones, strictly monotonically: tick k -> anchor + (k - a)*unit where
-// the anchor (tick a) is a whole second (X.509 times have second resolution) and the unit puts the neighbouring
-// ticks one hour, one second, one nanosecond, 999 999 999 ns or 1 000 000 001 ns away.
+// FrameRec is one FRAME record of MCTemporal.tla.
+type FrameRec struct {
+	At       string `json:"at"`
+	Pins     []int  `json:"pins"`
+	BoundMin int    `json:"boundMin"`
+	Top      int    `json:"top"`
+}
+
+// the table landmark -> real instant (whole seconds)
+var landmarks = map[string]time.Time{
+	"Mid":       time.Date(2031, 3, 5, 0, 0, 0, 0, time.UTC),
+	"First":     time.Date(0, 1, 1, 0, 0, 0, 0, time.UTC),
+	"ConfFirst": time.Date(1, 1, 1, 0, 0, 0, 0, time.UTC),
+	"UTCFirst":  time.Date(1950, 1, 1, 0, 0, 0, 0, time.UTC),
+	"Epoch":     time.Unix(0, 0).UTC(),
+	"Int32Last": time.Unix(1<<31-1, 0).UTC(),
+	"GenFirst":  time.Date(2050, 1, 1, 0, 0, 0, 0, time.UTC),
+	"NanoLast":  time.Unix(0, 1<<63-1).UTC().Truncate(time.Second),
+	"Last":      time.Date(9999, 12, 31, 23, 59, 59, 0, time.UTC),
+}
+
+// what a configuration (protobuf Timestamp) can name
+var (
+	confFirst = time.Date(1, 1, 1, 0, 0, 0, 0, time.UTC)
+	confLast  = time.Date(9999, 12, 31, 23, 59, 59, 999999999, time.UTC)
+)
+
+// A materialization maps model instants to real ones, strictly monotonically: in frame F the pinned tick a sits on F's
+// landmark (a whole second: X.509 times have second resolution) and tick k on landmark + (k - a)*unit, the unit putting
+// neighbouring ticks one hour, one second, one nanosecond, 999 999 999 ns or 1 000 000 001 ns apart.  Frame Mid keeps
+// the anchors of different pins an hour apart; in frame First tick 0 is the first instant a certificate can carry and
+// the ticks from 1 on start at the first instant a configuration can name.
 type mat struct {
-	a    int
-	unit time.Duration
+	frame    string
+	a        int
+	unit     time.Duration
+	boundMin int // the lowest tick a bound may use
 }
 
 var units = []time.Duration{time.Hour, time.Second, time.Nanosecond, 999999999 * time.Nanosecond, 1000000001 * time.Nanosecond}
 
-var base = time.Date(2031, 3, 5, 0, 0, 0, 0, time.UTC)
+var base = landmarks["Mid"]
 
 func (m mat) at(k int) time.Time {
-	return base.Add(time.Duration(m.a) * time.Hour).Add(time.Duration(k-m.a) * m.unit)
+	switch m.frame {
+	case "", "Mid":
+		return base.Add(time.Duration(m.a) * time.Hour).Add(time.Duration(k-m.a) * m.unit)
+	case "First":
+		if k == 0 {
+			return landmarks["First"]
+		}
+		return confFirst.Add(time.Duration(k-1) * m.unit)
+	}
+	return landmarks[m.frame].Add(time.Duration(k-m.a) * m.unit)
 }
 
-func (m mat) String() string { return fmt.Sprintf("anchor=%d unit=%v", m.a, m.unit) }
+// fits: every tick lies inside what a configuration can name (tick 0 of frame First: what a certificate can carry)
+func (m mat) fits(nT int) bool {
+	lo := m.at(0)
+	if m.frame == "First" {
+		lo = m.at(1)
+	}
+	return !lo.Before(confFirst) && !m.at(nT-1).After(confLast)
+}
+
+// usable: no bound of the case lies below the frame's boundMin
+func (m mat) usable(c Case) bool {
+	for _, sh := range c.S {
+		for _, b := range sh {
+			if b >= 0 && b < m.boundMin {
+				return false
+			}
+		}
+	}
+	return true
+}
+
+func (m mat) String() string {
+	f := m.frame
+	if f == "" {
+		f = "Mid"
+	}
+	return fmt.Sprintf("frame=%s pin=%d unit=%v", f, m.a, m.unit)
+}
+
+// mats lists the materializations of a frame: every pin x unit whose ticks fit
+func mats(f FrameRec, nT int, us []time.Duration) []mat {
+	var out []mat
+	for _, u := range us {
+		for _, a := range f.Pins {
+			if a >= nT {
+				continue
+			}
+			m := mat{frame: f.At, a: a, unit: u, boundMin: f.BoundMin}
+			if m.fits(nT) {
+				out = append(out, m)
+			}
+		}
+	}
+	return out
+}
 
 // zones: equal instants in different locations must compare equal
 var zones = []*time.Location{time.UTC, time.FixedZone("east", 5*3600+1800), time.FixedZone("west", -9*3600)}
@@ -69,11 +168,13 @@ func (m mat) bound(k, salt int) *time.Time {
 
 // world: one root and leaves by NotAfter
 type world struct {
-	mu     sync.Mutex
-	root   *pki.Node
-	pool   *x509util.PEMCertPool
-	leaves map[int64]*pki.Node
-	parsed map[int64]*ctx509.Certificate
+	mu      sync.Mutex
+	root    *pki.Node
+	pool    *x509util.PEMCertPool
+	leaves  map[int64]*pki.Node
+	parsed  map[int64]*ctx509.Certificate
+	leafKey *ecdsa.PrivateKey
+	serial  int64
 }
 
 func newWorld() *world {
@@ -86,7 +187,8 @@ func newWorld() *world {
 	return w
 }
 
-// leaf returns a certificate whose NotAfter is exactly t (t must be a whole second).
+// leaf returns a certificate whose NotAfter is exactly t (t must be a whole second).  It is issued here with the
+// standard library only (pki treats the zero time.Time, which is a landmark, as "use the default").
 func (w *world) leaf(t time.Time) (*pki.Node, *ctx509.Certificate) {
 	if t.Nanosecond() != 0 {
 		panic("sub-second NotAfter")
@@ -97,14 +199,42 @@ func (w *world) leaf(t time.Time) (*pki.Node, *ctx509.Certificate) {
 	if n, ok := w.leaves[k]; ok {
 		return n, w.parsed[k]
 	}
-	n := w.root.Issue(pki.Opts{CN: fmt.Sprintf("leaf %d", k), NotAfter: t, DNS: []string{"c18.example"}})
-	if !n.Cert.NotAfter.Equal(t) {
+	if w.leafKey == nil {
+		var err error
+		if w.leafKey, err = ecdsa.GenerateKey(elliptic.P256(), rand.Reader); err != nil {
+			panic(err)
+		}
+	}
+	w.serial++
+	notBefore := pki.DefaultNotBefore
+	if t.Before(notBefore) {
+		notBefore = t
+	}
+	tmpl := &stdx509.Certificate{
+		SerialNumber:          big.NewInt(700000 + w.serial),
+		Subject:               pkix.Name{CommonName: fmt.Sprintf("leaf %d", k), Organization: []string{"verif"}},
+		NotBefore:             notBefore,
+		NotAfter:              t.UTC(),
+		BasicConstraintsValid: true,
+		KeyUsage:              stdx509.KeyUsageDigitalSignature,
+		DNSNames:              []string{"c18.example"},
+	}
+	der, err := stdx509.CreateCertificate(rand.Reader, tmpl, w.root.Cert, w.leafKey.Public(), w.root.Key)
+	if err != nil {
+		panic(fmt.Sprintf("issuing a leaf with NotAfter %v: %v", t, err))
+	}
+	std, err := stdx509.ParseCertificate(der)
+	if err != nil {
+		panic(fmt.Sprintf("std parser refuses the leaf with NotAfter %v: %v", t, err))
+	}
+	if !std.NotAfter.Equal(t) {
 		panic("NotAfter not preserved")
 	}
-	c, err := ctx509.ParseCertificate(n.DER)
+	c, err := ctx509.ParseCertificate(der)
 	if err != nil {
 		panic(err)
 	}
+	n := &pki.Node{Name: tmpl.Subject.CommonName, Cert: std, DER: der, Key: w.leafKey, Parent: w.root}
 	w.leaves[k] = n
 	w.parsed[k] = c
 	return n, c
@@ -125,12 +255,24 @@ func rel(t int, sh []int) string {
 	return part(sh[0], "start") + "," + part(sh[1], "limit")
 }
 
+// shape names which bounds a window has
+func shape(sh []int) string {
+	p := func(b int, name string) string {
+		if b < 0 {
+			return "no-" + name
+		}
+		return name
+	}
+	return p(sh[0], "start") + "," + p(sh[1], "limit")
+}
+
 type runner struct {
-	w     *world
-	rep   *vh.Report
-	nT    int
-	dir   string
-	stats struct {
+	frames []FrameRec
+	w      *world
+	rep    *vh.Report
+	nT     int
+	dir    string
+	stats  struct {
 		sync.Mutex
 		m map[string]int
 	}
@@ -140,6 +282,20 @@ func (r *runner) count(k string, n int) {
 	r.stats.Lock()
 	r.stats.m[k] += n
 	r.stats.Unlock()
+}
+
+// ctxt is the replay data of a violation: the case, the materialization and the frames of the run
+func (r *runner) ctxt(c Case, m mat) map[string]any {
+	return map[string]any{"case": c, "mat": m.String(), "frames": r.frames}
+}
+
+// frameTag names the frame in fingerprints of the routes whose verdict can depend on where the instants lie; the ordinary
+// frame keeps the bare fingerprints
+func frameTag(m mat) string {
+	if m.frame == "" || m.frame == "Mid" {
+		return ""
+	}
+	return ":at=" + m.frame
 }
 
 func guard(rep *vh.Report, site string, ctxt any, f func()) {
@@ -166,7 +322,7 @@ func (r *runner) construct(c Case, m mat) *client.TemporalLogClient {
 	}
 	var tlc *client.TemporalLogClient
 	var err error
-	ctxt := map[string]any{"case": c, "mat": m.String()}
+	ctxt := r.ctxt(c, m)
 	guard(r.rep, "NewTemporalLogClient", ctxt, func() { tlc, err = client.NewTemporalLogClient(cfg, nil) })
 	r.rep.Eval("")
 	if (err == nil) != c.Ok {
@@ -211,7 +367,8 @@ func listClass(S [][]int) string {
 }
 
 func (r *runner) full(c Case, m mat, withInstance bool) {
-	ctxt := map[string]any{"case": c, "mat": m.String()}
+	ctxt := r.ctxt(c, m)
+	ft := frameTag(m)
 	tlc := r.construct(c, m)
 	// --- shard client: IndexByDate at every instant (full resolution)
 	if tlc != nil {
@@ -234,7 +391,7 @@ func (r *runner) full(c Case, m mat, withInstance bool) {
 				if which >= 0 && which < len(c.S) {
 					sh = c.S[which]
 				}
-				r.rep.Violate(fmt.Sprintf("shardclient:IndexByDate:%s:want=%d:got=%d", rel(t, sh), want, got),
+				r.rep.Violate(fmt.Sprintf("shardclient:IndexByDate:%s:want=%d:got=%d%s", rel(t, sh), want, got, ft),
 					fmt.Sprintf("IndexByDate(%v) on shards %v (%s, tick %d): specification routes to shard %d, implementation to %d (err=%v)",
 						when.Format(time.RFC3339Nano), c.S, m, t, want, got, err), ctxt)
 			}
@@ -255,7 +412,7 @@ func (r *runner) full(c Case, m mat, withInstance bool) {
 			guard(r.rep, "ValidateChain", ctxt, func() { path, err = ctfe.ValidateChain([][]byte{leaf.DER, r.w.root.DER}, opts) })
 			r.rep.Eval("srv:" + rel(t, sh) + ":" + m.unit.String())
 			if (err == nil) != want || (err == nil && len(path) != 2) {
-				r.rep.Violate(fmt.Sprintf("server:ValidateChain:%s:spec=%v", rel(t, sh), want),
+				r.rep.Violate(fmt.Sprintf("server:ValidateChain:%s:spec=%v%s", rel(t, sh), want, ft),
 					fmt.Sprintf("ValidateChain, NotAfter %v, window [%v, %v) (%s): specification admits=%v, implementation error=%v",
 						at.Format(time.RFC3339Nano), fmtB(m, sh[0]), fmtB(m, sh[1]), m, want, err), ctxt)
 			}
@@ -264,21 +421,30 @@ func (r *runner) full(c Case, m mat, withInstance bool) {
 				got, ierr := tlc.IndexByDate(parsed.NotAfter)
 				routed := ierr == nil && got == i
 				if routed != (err == nil) {
-					r.rep.Violate(fmt.Sprintf("routing-vs-admission:%s:routed=%v:admitted=%v", rel(t, sh), routed, err == nil),
+					r.rep.Violate(fmt.Sprintf("routing-vs-admission:%s:routed=%v:admitted=%v%s", rel(t, sh), routed, err == nil, ft),
 						fmt.Sprintf("certificate with NotAfter %v: the shard client routes it to shard %d = %v, a server with that shard's window [%v, %v) admits it = %v",
 							at.Format(time.RFC3339Nano), i, routed, fmtB(m, sh[0]), fmtB(m, sh[1]), err == nil), ctxt)
 				}
 			}
 		}
-		// --- log server as configured: LogConfig -> ValidateLogConfig -> Instance -> POST add-chain
-		if withInstance && !(sh[0] >= 0 && sh[1] >= 0 && sh[1] < sh[0]) { // "limit before start" is refused at configuration time
+		// --- log server as configured: LogConfig -> ValidateLogConfig -> setUpLogInfo -> Instance -> POST add-chain
+		if withInstance {
 			var in *c02.Inst
 			var err error
 			guard(r.rep, "NewInstance", ctxt, func() {
 				in, err = c02.NewInstance(r.dir, c02.InstCfg{RootsPEM: pki.PEM(r.w.root), Start: m.bound(sh[0], 0), Limit: m.bound(sh[1], 0)})
 			})
+			r.rep.Eval("cfg:" + listClass([][]int{sh}) + fmt.Sprint(c.Cfg[i]))
+			if !c.Cfg[i] {
+				// ConfigAccepts is false: ValidateLogConfig must refuse the window
+				if err == nil || !strings.Contains(err.Error(), "ValidateLogConfig") {
+					r.rep.Violate("server:config-accepted:"+listClass([][]int{sh})+ft, fmt.Sprintf("the front end's configuration accepts the window [%v, %v) (%s), the specification refuses it (err=%v)",
+						fmtB(m, sh[0]), fmtB(m, sh[1]), m, err), ctxt)
+				}
+				continue
+			}
 			if err != nil {
-				r.rep.Violate("server:config-refused:"+listClass([][]int{sh}), fmt.Sprintf("the front end refuses the window [%v, %v): %v", fmtB(m, sh[0]), fmtB(m, sh[1]), err), ctxt)
+				r.rep.Violate("server:config-refused:"+listClass([][]int{sh})+ft, fmt.Sprintf("the front end refuses the window [%v, %v) (%s): %v", fmtB(m, sh[0]), fmtB(m, sh[1]), m, err), ctxt)
 				continue
 			}
 			if in == nil {
@@ -289,21 +455,61 @@ func (r *runner) full(c Case, m mat, withInstance bool) {
 				if at.Nanosecond() != 0 {
 					continue
 				}
-				leaf, _ := r.w.leaf(at)
+				leaf, parsed := r.w.leaf(at)
 				status := 0
 				guard(r.rep, "add-chain", ctxt, func() { status, _, _ = in.Post("add-chain", [][]byte{leaf.DER, r.w.root.DER}) })
-				r.rep.Eval("inst:" + rel(t, sh) + ":" + m.unit.String())
+				r.rep.Eval("inst:" + rel(t, sh) + ":" + m.unit.String() + ft)
 				r.count("instance_posts", 1)
-				if (status == 200) != c.Srv[i][t] || (status != 200 && status != 400) {
-					r.rep.Violate(fmt.Sprintf("server:add-chain:%s:spec=%v:status=%d", rel(t, sh), c.Srv[i][t], status),
+				want := c.Ins[i][t]
+				if (status == 200) != want || (status != 200 && status != 400) {
+					r.rep.Violate(fmt.Sprintf("server:add-chain:%s:spec=%v:status=%d%s", rel(t, sh), want, status, ft),
 						fmt.Sprintf("add-chain on an instance configured with window [%v, %v), NotAfter %v (%s): specification admits=%v, HTTP status %d",
-							fmtB(m, sh[0]), fmtB(m, sh[1]), at.Format(time.RFC3339Nano), m, c.Srv[i][t], status), ctxt)
+							fmtB(m, sh[0]), fmtB(m, sh[1]), at.Format(time.RFC3339Nano), m, want, status), ctxt)
 				}
+				// routing <=> admission by the server as configured, on the real components
+				if tlc != nil {
+					got, ierr := tlc.IndexByDate(parsed.NotAfter)
+					routed := ierr == nil && got == i
+					if routed != (status == 200) {
+						r.rep.Violate(fmt.Sprintf("routing-vs-instance:%s:routed=%v:status=%d%s", rel(t, sh), routed, status, ft),
+							fmt.Sprintf("certificate with NotAfter %v: the shard client routes it to shard %d = %v, an instance configured with that shard's window [%v, %v) answers add-chain with %d (%s)",
+								at.Format(time.RFC3339Nano), i, routed, fmtB(m, sh[0]), fmtB(m, sh[1]), status, m), ctxt)
+					}
+				}
+			}
+		}
+		// --- the integration tests' chooser: an instant of the window
+		if c.Pick[i] {
+			cfg := &ctfeconfigpb.LogConfig{}
+			lo, up := m.bound(sh[0], 1), m.bound(sh[1], 2)
+			if lo != nil {
+				cfg.NotAfterStart = timestamppb.New(*lo)
+			}
+			if up != nil {
+				cfg.NotAfterLimit = timestamppb.New(*up)
+			}
+			var picked time.Time
+			var err error
+			guard(r.rep, "NotAfterForLog", ctxt, func() { picked, err = integration.NotAfterForLog(cfg) })
+			r.rep.Eval("pick:" + shape(sh) + ":" + m.unit.String() + ft)
+			inside := err == nil && (lo == nil || !picked.Before(*lo)) && (up == nil || picked.Before(*up))
+			if !inside {
+				r.rep.Violate(fmt.Sprintf("chooser:NotAfterForLog:%s:outside%s", shape(sh), ft),
+					fmt.Sprintf("NotAfterForLog for the window [%v, %v) (%s) returns %v (err=%v), which is not inside the window",
+						fmtB(m, sh[0]), fmtB(m, sh[1]), m, picked.Format(time.RFC3339Nano), err), ctxt)
 			}
 		}
 	}
 	// --- log list: one log per expressible shard
 	r.logList(c, m, ctxt)
+}
+
+// rfc3339 writes an instant in its own zone unless the local year leaves the four digits of the format
+func rfc3339(t time.Time) string {
+	if y := t.Year(); y < 0 || y > 9999 {
+		t = t.UTC()
+	}
+	return t.Format(time.RFC3339Nano)
 }
 
 func fmtB(m mat, k int) string {
@@ -332,7 +538,7 @@ func (r *runner) logList(c Case, m mat, ctxt any) {
 		j := jl{Description: l.Description, URL: l.URL}
 		if sh[0] >= 0 {
 			l.TemporalInterval = &loglist3.TemporalInterval{StartInclusive: *m.bound(sh[0], i), EndExclusive: *m.bound(sh[1], i+1)}
-			j.Interval = map[string]any{"start_inclusive": m.at(sh[0]).Format(time.RFC3339Nano), "end_exclusive": m.bound(sh[1], i).Format(time.RFC3339Nano)}
+			j.Interval = map[string]any{"start_inclusive": m.at(sh[0]).Format(time.RFC3339Nano), "end_exclusive": rfc3339(*m.bound(sh[1], i))}
 		}
 		op.Logs = append(op.Logs, l)
 		jlogs = append(jlogs, j)
@@ -358,7 +564,7 @@ func (r *runner) logList(c Case, m mat, ctxt any) {
 		for i := range expr {
 			r.rep.Eval("lst:" + rel(t, c.S[i]) + ":" + m.unit.String())
 			if in[i] != c.Lst[i][t] {
-				r.rep.Violate(fmt.Sprintf("loglist:%s:%s:spec=%v", strings.SplitN(via, "/", 2)[0], rel(t, c.S[i]), c.Lst[i][t]),
+				r.rep.Violate(fmt.Sprintf("loglist:%s:%s:spec=%v%s", strings.SplitN(via, "/", 2)[0], rel(t, c.S[i]), c.Lst[i][t], frameTag(m)),
 					fmt.Sprintf("%s, NotAfter %v, temporal interval [%v, %v) (%s): specification compatible=%v, implementation=%v",
 						via, m.at(t).Format(time.RFC3339Nano), fmtB(m, c.S[i][0]), fmtB(m, c.S[i][1]), m, c.Lst[i][t], in[i]), ctxt)
 			}
@@ -383,9 +589,10 @@ func (r *runner) logList(c Case, m mat, ctxt any) {
 }
 
 func TestReplay(t *testing.T) {
-	rep := vh.NewReport("c18-replay", "every shard list / window of MCTemporal.tla materialized with hour, second and nanosecond spacing around a "+
-		"whole-second anchor: NewTemporalLogClient accepts exactly ConstructorAccepts; IndexByDate = ShardIndex; ValidateChain and add-chain on a "+
-		"configured instance = ServerAdmits; TemporallyCompatible / Compatible = ListCompatible; routing <=> admission on the real components")
+	rep := vh.NewReport("c18-replay", "every shard list / window of MCTemporal.tla materialized in every frame of the specification (ordinary instant, first / last "+
+		"instant a certificate can carry, first instant a configuration can name, UTCTime / GeneralizedTime switches, Unix 0, 32-bit and 64-bit-nanosecond ends) "+
+		"with hour, second and nanosecond spacing around a whole-second pin: NewTemporalLogClient accepts exactly ConstructorAccepts; IndexByDate = ShardIndex; ValidateChain and add-chain on a "+
+		"configured instance (ValidateLogConfig -> setUpLogInfo) = ConfigAccepts / ConfiguredAdmits; NotAfterForLog inside the window; TemporallyCompatible / Compatible = ListCompatible; routing <=> admission on the real components")
 	defer func() {
 		if err := rep.Write(); err != nil {
 			t.Fatal(err)
@@ -403,8 +610,37 @@ func TestReplay(t *testing.T) {
 		t.Fatal("no cases")
 	}
 	nT := vh.EnvInt("VERIF_NT", 8)
+	fpath := os.Getenv("VERIF_FRAMES")
+	if fpath == "" {
+		t.Fatal("VERIF_FRAMES not set")
+	}
+	frames, err := vh.LoadNDJSON[FrameRec](fpath)
+	if err != nil {
+		t.Fatal(err)
+	}
+	haveMid := false
+	for _, f := range frames {
+		if _, ok := landmarks[f.At]; !ok {
+			t.Fatalf("the specification names a frame this harness cannot realize: %q", f.At)
+		}
+		if f.Top != nT-1 {
+			t.Fatalf("frame %s is for ticks 0..%d, the run has %d ticks", f.At, f.Top, nT)
+		}
+		if len(mats(f, nT, units)) == 0 {
+			t.Fatalf("frame %s has no materialization", f.At)
+		}
+		haveMid = haveMid || f.At == "Mid"
+	}
+	if !haveMid {
+		t.Fatal("no frame Mid")
+	}
+	// the extreme frames of the range are always realized in full; of the frames inside the range (other than Mid) the
+	// quick tier draws VERIF_INNER_MATS materializations per case by seed, with whole-second and nanosecond units
+	extreme := map[string]bool{"Mid": true, "First": true, "ConfFirst": true, "Last": true}
+	innerUnits := []time.Duration{time.Second, time.Nanosecond}
+	innerPerCase := vh.EnvInt("VERIF_INNER_MATS", 2)
 	dir := t.TempDir()
-	r := &runner{w: newWorld(), rep: rep, nT: nT, dir: dir}
+	r := &runner{w: newWorld(), rep: rep, nT: nT, dir: dir, frames: frames}
 	r.stats.m = map[string]int{}
 	instanceShare := vh.EnvInt("VERIF_INSTANCE_PERCENT", 10) // share of accepted multi-shard lists also run through a configured instance
 	replayAll := os.Getenv("VERIF_REPLAY_ONE") == "1"
@@ -424,14 +660,36 @@ func TestReplay(t *testing.T) {
 				interesting := c.Ok || len(c.S) == 1 || replayAll
 				if !interesting {
 					// refused list: the constructor must refuse it under a materialization drawn by seed
-					m := mat{a: rnd.Intn(nT), unit: units[rnd.Intn(len(units))]}
+					f := frames[rnd.Intn(len(frames))]
+					ms := mats(f, nT, units)
+					m := ms[rnd.Intn(len(ms))]
+					if !m.usable(c) {
+						m = mat{frame: "Mid", a: rnd.Intn(nT), unit: units[rnd.Intn(len(units))]}
+					}
 					r.construct(c, m)
 					r.count("refused_lists", 1)
+					r.count("frame:"+m.frame+":refused", 1)
 					continue
 				}
-				for _, u := range units {
-					for a := 0; a < nT; a++ {
-						m := mat{a: a, unit: u}
+				for _, f := range frames {
+					var ms []mat
+					switch {
+					case extreme[f.At] || replayAll || vh.Thorough():
+						ms = mats(f, nT, units)
+						if !extreme[f.At] {
+							ms = mats(f, nT, innerUnits)
+						}
+					default:
+						all := mats(f, nT, innerUnits)
+						for n := 0; n < innerPerCase && len(all) > 0; n++ {
+							ms = append(ms, all[rnd.Intn(len(all))])
+						}
+					}
+					for _, m := range ms {
+						if !m.usable(c) {
+							continue
+						}
+						r.count("frame:"+f.At, 1)
 						if !c.Ok && len(c.S) != 1 {
 							r.construct(c, m)
 							continue
